@@ -22,8 +22,10 @@ import (
 	"encoding/hex"
 	"encoding/json"
 	"fmt"
+	"math"
 	"os"
 	"os/exec"
+	"regexp"
 	"runtime"
 	"sort"
 	"strconv"
@@ -159,7 +161,7 @@ func ptItems(its []parse.VerifItem) []ptItem {
 }
 
 // item type codes, read off the real scanner
-var tString, tEquals, tIdent, tCss, tText = -1, -1, -1, -1, -1
+var tString, tEquals, tIdent, tCss, tText, tFloat = -1, -1, -1, -1, -1, -1
 
 func ptInitCodes() {
 	if tString >= 0 {
@@ -172,6 +174,9 @@ func ptInitCodes() {
 	}
 	tString, tEquals, tIdent = a[0].Typ, a[1].Typ, a[2].Typ
 	tCss, tText = b[1].Typ, b[2].Typ
+	if f := parse.VerifLex("", "1.5", true); len(f) >= 1 {
+		tFloat = f[0].Typ
+	}
 }
 
 // ptTables: the attribute strings the parser may hand to parseQuotedExpr (call data=, param
@@ -579,9 +584,10 @@ func ptCompare(e *env, c ptCase, r *ptResult, m ptModel) bool {
 		return false
 	}
 	if m.Class == "crash" && strings.HasPrefix(m.ErrCls, "OUT-OF-MODEL") {
-		e.res.Histogram["tie:skipped-float-outside-model"]++
-		return true
+		// the parser model is total on float literals (NumLit.parse_float_round): it must not happen any more
+		return bad("the model left its domain on a float literal", "a tree or an error", m.Raw)
 	}
+	ptFloatShapes(e, c, r)
 	if strings.HasPrefix(m.Class, "!") || m.Class == "fuel" {
 		return bad("the model runner failed", "an answer", m.Raw)
 	}
@@ -598,6 +604,9 @@ func ptCompare(e *env, c ptCase, r *ptResult, m ptModel) bool {
 			return bad("tree", m.Sexp, r.Sexp)
 		}
 		e.res.Histogram["tie:agree:tree"]++
+		for _, k := range ptKindRe.FindAllStringSubmatch(m.Sexp, -1) {
+			e.res.Histogram["tie:agree:node:"+k[1]]++
+		}
 	case "err":
 		if !r.ErrPos {
 			return bad("the error has no file position", "ErrFilePos", r.ErrText)
@@ -620,6 +629,208 @@ func ptCompare(e *env, c ptCase, r *ptResult, m ptModel) bool {
 		e.res.Histogram["tie:agree:error-position"]++
 	}
 	return true
+}
+
+// ptKinds: every node kind parse.SoyFile / parse.Expr can build (astsexp.go names).  The tree comparison
+// is field by field (every field of every node type, positions included); ptKindCoverage reports, as a
+// note, the kinds no agreeing tree of this run contained.
+var ptKindRe = regexp.MustCompile(`\((list|raw|print|dir|css|log|debugger|if|ifcond|for|switch|case|call|pval|pcontent|letv|letc|msg|ph|tag|plural|pcase|template|namespace|soydoc|sdparam|hparam|null|bool|int|float|str|global|func|listlit|maplit|ref|idx|key|exp|not|neg|bin|tern) `)
+
+var ptKinds = strings.Fields("raw print dir css log debugger if ifcond for switch case call pval pcontent letv letc msg ph tag plural pcase template namespace soydoc sdparam hparam null bool int float str global func listlit maplit ref idx key exp not neg bin tern")
+
+func ptKindCoverage(e *env) {
+	var missing []string
+	for _, k := range ptKinds {
+		if e.res.Histogram["tie:agree:node:"+k] == 0 {
+			missing = append(missing, k)
+		}
+	}
+	if len(missing) > 0 {
+		e.res.Note("node kinds in no agreeing tree of this run: %s", strings.Join(missing, " "))
+	} else {
+		e.res.Note("every node kind the parser builds (%d kinds) occurs in trees on which model and implementation agree field by field", len(ptKinds))
+	}
+}
+
+// ---------- float literals ----------
+
+// The float syntax of scanNumber: what NumLit.split_float accepts.  The parser model takes a float
+// item of any other text to make ParseFloat fail (FRSyntax); the scanner never sends one -- checked
+// here on every token stream the tie sees.
+var ptFloatRe = regexp.MustCompile(`^-?[0-9]+(\.[0-9]+)?(e[+-]?[0-9]+)?$`)
+
+func ptFloatShapes(e *env, c ptCase, r *ptResult) {
+	ptInitCodes()
+	check := func(its []ptItem) {
+		for _, it := range its {
+			if it.T != tFloat {
+				continue
+			}
+			v := hx.UnH(it.V)
+			if ptFloatRe.MatchString(v) {
+				e.res.Histogram["tie:float-item-of-scanner-syntax"]++
+			} else {
+				e.res.Fail(hx.Violation{Kind: "mismatch", What: "the scanner sent a float item outside the float syntax the parser model covers (NumLit.split_float)",
+					Case: c, Expected: ptFloatRe.String(), Observed: v}, "")
+			}
+		}
+	}
+	check(r.Toks)
+	for _, q := range r.Q {
+		check(q)
+	}
+	for _, l := range r.Lines {
+		check(l.Toks)
+	}
+}
+
+// ptFloatTie: NumLit.parse_float_round against strconv.ParseFloat on generated literals of the
+// scanner's float syntax: the same float64 bit for bit (as odd mantissa * 2^exponent), or ErrRange
+// on both sides.
+func ptFloatTie(e *env, batch func([]string) [][]string, n int) {
+	r := e.rng
+	digits := func(k int) string {
+		var sb strings.Builder
+		for i := 0; i < k; i++ {
+			sb.WriteByte(byte('0' + r.Intn(10)))
+		}
+		return sb.String()
+	}
+	lits := []string{"0.1", "0.2", "0.3", "3.14", "1e-7", "1e400", "1e-400", "1e308", "1.7976931348623157e308", "1.7976931348623158e308", "1.7976931348623159e308",
+		"4.9e-324", "5e-324", "2.4703282292062327e-324", "2.4703282292062328e-324", "2.2250738585072011e-308", "2.2250738585072014e-308", "9007199254740993.0", "9007199254740992.5",
+		"-0.0", "0.0", "0e999999", "-0e5", "1e23", "8.41e21", "9.5e-1", "123456789012345678901234567890.0", "0.000000000000000000000000000001", "1e+22", "1e22", "6.02e23", "1e999999999999999999999", "1e-999999999999999999999",
+		"179769313486231580793728971405303415079934132710037826936173778980444968292764750946649017977587207096330286416692887910946555547851940402630657488671505820681908902000708383676273854845817711531764475730270069855571366959622842914819860834936475292719074168444365510704342711559699508093042880177904174497791.9"}
+	for len(lits) < n {
+		var sb strings.Builder
+		if r.Chance(25) {
+			sb.WriteByte('-')
+		}
+		sb.WriteString(strings.TrimLeft(digits(1+r.Intn(22)), "0"))
+		if sb.Len() == 0 || sb.String() == "-" {
+			sb.WriteByte('0')
+		}
+		form := r.Intn(3)
+		if form != 1 {
+			sb.WriteByte('.')
+			sb.WriteString(digits(1 + r.Intn(25)))
+		}
+		if form != 0 {
+			sb.WriteByte('e')
+			sb.WriteString(r.Pick([]string{"", "+", "-", "-", "-"}))
+			switch r.Intn(4) {
+			case 0:
+				sb.WriteString(strconv.Itoa(r.Intn(30)))
+			case 1:
+				sb.WriteString(strconv.Itoa(290 + r.Intn(50)))
+			default:
+				sb.WriteString(strconv.Itoa(r.Intn(330)))
+			}
+		}
+		lits = append(lits, sb.String())
+	}
+	reqs := make([]string, len(lits))
+	for i, l := range lits {
+		reqs[i] = "parse_float_round " + hx.H(l)
+	}
+	resp := batch(reqs)
+	for i, l := range lits {
+		f, err := strconv.ParseFloat(l, 64)
+		want := "val " + flSexp(f)
+		if err != nil {
+			want = "range"
+			if ne, ok := err.(*strconv.NumError); !ok || ne.Err != strconv.ErrRange {
+				want = "syntax"
+			}
+		}
+		got := strings.Join(resp[i], " ")
+		class := "finite"
+		switch {
+		case err != nil:
+			class = "range"
+		case f == 0:
+			class = "zero"
+		case math.Abs(f) < 2.2250738585072014e-308:
+			class = "subnormal"
+		}
+		e.res.Count("float-literal:"+l, true, "float-tie:"+class)
+		if got != want {
+			e.res.Fail(hx.Violation{Kind: "mismatch", What: "NumLit.parse_float_round differs from strconv.ParseFloat", Case: map[string]string{"literal": l},
+				Expected: want, Observed: got}, "")
+		} else {
+			e.res.Histogram["float-tie:agree"]++
+		}
+	}
+}
+
+// ---------- bytes -> tree: the composed model of Model/ParseBytes.v ----------
+
+// ptBytesReq: the request for the composed model (scanner model + parser model); only
+// strconv.Unquote of the attribute strings is handed over.
+func ptBytesReq(c ptCase, r *ptResult) string {
+	switch c.Kind {
+	case "file":
+		var sb strings.Builder
+		fmt.Fprintf(&sb, "parse_bytes #0 %s #%d", hx.H(c.Text), len(r.U))
+		for _, k := range sortedKeysStr(r.U) {
+			v := r.U[k]
+			if v == "N" {
+				fmt.Fprintf(&sb, " %s N -", k)
+			} else {
+				fmt.Fprintf(&sb, " %s S %s", k, v[1:])
+			}
+		}
+		return sb.String()
+	case "expr":
+		return fmt.Sprintf("parse_bytes #1 %s #0", hx.H(c.Text))
+	}
+	return ""
+}
+
+// ptBytesTie runs the composed model on the source text of every case that returned and compares
+// outcome class, tree, error position and the predicted scanner records with the real parse:
+// the statement of C18_no_goroutine_left_file/_expr and soy_file_total_composed, executed.
+// Every case with a nested scanner, a float literal or of the fixed families is run, of the others one in
+// [every] (the composed model costs a few ms per input).
+func ptBytesTie(e *env, cases []ptCase, res []ptResult, batch func([]string) [][]string, every int) {
+	var reqs []string
+	var idx []int
+	for i := range cases {
+		r := &res[i]
+		if r.Class == "hang" || r.Class == "crash" || r.Class == "skipped" || len(cases[i].Text) > 6000 {
+			continue
+		}
+		if every > 1 && len(r.Q) == 0 && !strings.Contains(cases[i].Fam, "float") && !strings.Contains(cases[i].Fam, "fixed") && i%every != 0 {
+			continue
+		}
+		if q := ptBytesReq(cases[i], r); q != "" {
+			reqs, idx = append(reqs, q), append(idx, i)
+		}
+	}
+	t0 := time.Now()
+	resp := batch(reqs)
+	for k, i := range idx {
+		c := cases[i]
+		if len(resp[k]) >= 1 && resp[k][0] == "lexfail" {
+			e.res.Fail(hx.Violation{Kind: "mismatch", What: "the scanner model does not return an item list (lex_total_linear says it must)", Case: c, Observed: strings.Join(resp[k], " ")}, "")
+			continue
+		}
+		m := ptDecode(resp[k])
+		if m.Class == "crash" || m.Class == "fuel" || strings.HasPrefix(m.Class, "!") {
+			e.res.Fail(hx.Violation{Kind: "mismatch", What: "the composed model (Model/ParseBytes.v) does not return a tree or an error (C18_no_goroutine_left / soy_file_total_composed say it must)", Case: c, Observed: m.Raw}, "")
+			continue
+		}
+		if n := m.leak(); n != 0 {
+			e.res.Fail(hx.Violation{Kind: "mismatch", What: "the composed model predicts a scanner goroutine left behind (the theorem says none)", Case: c, Observed: m.Raw}, "")
+			continue
+		}
+		if ptCompare(e, c, &res[i], m) {
+			e.res.Histogram["bytes-tie:agree:"+c.Kind]++
+			if len(m.Scans) > 1 {
+				e.res.Histogram["bytes-tie:agree:with-nested-scanner-model"]++
+			}
+		}
+	}
+	e.res.Note("%d runs of the composed model bytes -> tree: %.1fs", len(reqs), time.Since(t0).Seconds())
 }
 
 // ---------- inputs ----------
@@ -804,6 +1015,12 @@ func ptGenInputs(e *env, budget int) []ptCase {
 	}
 	for _, ex := range []string{"1 2 3", "", " ", "1", "$a.b.c", "f(", "[", "['a':", "1 +", "'s' 't'", "$x ?", "$x ? 1 :", "not", "-", "(", ")", "1 }", "1 } {"} {
 		add("expr", "expr-fixed", ex)
+	}
+	// 4b. float literals outside the exact decimal domain (correctly rounded / ErrRange in the model)
+	for _, ex := range []string{"0.1", "3.14 * 2.0", "1e-7 + 0.3", "1e400", "-1e400 + 1", "1e-400", "[0.1, 1e400]", "f(2.5e-3, 1e308)", "0.1 2", "$a.b + 4.9e-324",
+		"1.7976931348623158e308", "1.7976931348623159e308", "123456789012345678901.5", "['k': 0.7]", "0.30000000000000004 == 0.1 + 0.2", "1.5e", "1.", "2.e3", "1e+", "0x1.8", "00.5", "1.5x"} {
+		add("expr", "expr-float", ex)
+		add("file", "file-float", "{namespace n}\n{template .t}\n{"+ex+"}{call .u data=\"["+strings.ReplaceAll(ex, "\"", "")+"]\" /}\n{/template}\n")
 	}
 	// 5. quoted attribute expressions (nested scanner)
 	for i := 0; i < budget/8; i++ {
